@@ -290,7 +290,9 @@ def run_shard(spec, ctx, acc):
             if data and draw(st.booleans()):
                 data = data[:draw(st.integers(0, len(data)))]  # the peer goes away mid-frame
             n = len(data)
-            chunks = draw(st.lists(st.integers(1, max(1, n)), max_size=12))
+            from vp.props import c10
+
+            chunks = draw(st.one_of(st.lists(st.integers(1, max(1, n)), max_size=12), c10.schedules(items, n)))
             o = draw(SOPTS)
             return {"kind": "socket", "data": data, "chunks": chunks, "end": draw(st.sampled_from(["close", "timeout", "oserror"])),
                     "bufsize": draw(st.sampled_from([1, 4, 16, 4096])), "opts": {k_: v for k_, v in o.items() if k_ != "handler"}}
@@ -308,6 +310,22 @@ def run_shard(spec, ctx, acc):
         lambda t: {"kind": "frame", "frame": t[0], "mode": t[1], "validate": t[2], "bf": t[3]})
     core.hyp_search(acc, strat, check, seed=core.derive(ctx["seed"], PROP, "bytes"),
                     max_examples=1500 if tier == "quick" else 60000, known=known, rounds=4)
+    # messages that *refer* to another message by class/ID (ACK-ACK, ACK-NAK,
+    # CFG-MSG: str() renders the reference by name, see README): every known
+    # class/ID pair, plus unknown ones, as the referenced message
+    import pyubx2
+
+    refs = sorted({k[0:2] for k in pyubx2.UBX_MSGIDS}) + [b"\x99\x99", b"\x13\x99", b"\x00\x00", b"\xff\xff"]
+    for ref in refs:
+        for clsid, tails, modes in ((b"\x05\x01", [b""], (0,)), (b"\x05\x00", [b""], (0,)),
+                                    (b"\x06\x01", [b"", b"\x01", b"\x00\x01\x00\x01\x00\x00"], (1, 2, 0, 3))):
+            for tail in tails:
+                for mode in modes:
+                    case = {"kind": "frame", "frame": codec.ubx_frame(clsid[0:1], clsid[1:2], ref + tail),
+                            "mode": mode, "validate": 1, "bf": 1}
+                    o = check(case)
+                    o.classes = list(o.classes) + ["refers-to-message"]
+                    core.handle(acc, o, case, known)
     # very long inputs (length fields cannot express them)
     for n in (65536 + 8, 70000):
         for validate in (1, 0):
